@@ -1,6 +1,7 @@
 """C19 - graph codec bijective (codec clause)."""
 from ..rules_flow import Flow
 from ..rules_k import K10_K11_codec, K12_local_complementation, K14_grouping_codecs
+from ..rules_conv import U1_defined_attributes
 
 
 def run(tree, rep, tier):
@@ -9,6 +10,7 @@ def run(tree, rep, tier):
     K10_K11_codec(rep, flow, tier)
     K12_local_complementation(rep, flow, tier)
     K14_grouping_codecs(rep, flow)
+    U1_defined_attributes(rep, flow, ['graph', 'linear_index'])
     rep.decided += ["compress / decompress enumerate the same affine (i,j) -> bit bijection, equal to the documented layout; hence mutually inverse on 0..2^(n(n-1)/2)-1 (K10, K11)"]
     rep.decided += ["local complementation complements exactly the edges among the neighbours, is an involution and keeps the graph simple - for every graph on 2..5 vertices (quick tier) and 2..6 vertices, i.e. the whole domain of the property (thorough tier), both forms (K12)"]
     rep.not_decided += ["that the stabilizer state stays in the same class under local complementation (value-level)", "class id <-> grouping arithmetic inside lc_classes (start offsets of the entanglement structures)"]
